@@ -67,9 +67,10 @@ type Counter struct {
 	name string
 	file *file
 
-	next  atomic.Pointer[Counter]
-	state counterState
-	ptr   counterPtr
+	next       atomic.Pointer[Counter]
+	registered atomic.Bool // set once the counter is linked into file.counters
+	state      counterState
+	ptr        counterPtr
 }
 
 func (c *Counter) Name() string {
